@@ -841,7 +841,11 @@ func main() {
 		if strings.Contains(d.Output, "WATCHDOG") || d.Seed == 0 || !crashInSUT(d.Output) {
 			infra++
 			if len(infraMsgs) < 5 {
-				infraMsgs = append(infraMsgs, "worker died: "+firstLines(d.Output, 12))
+				why := "worker died"
+				if strings.Contains(d.Output, "WATCHDOG") {
+					why = "run exceeded its real-time budget (watchdog)"
+				}
+				infraMsgs = append(infraMsgs, fmt.Sprintf("%s, seed %d", why, d.Seed))
 			}
 			continue
 		}
